@@ -329,6 +329,6 @@ func main() {
 		"interleavings are explored at channel, mutex and context operations of the instrumented rogger package; both outcomes of a select with several ready cases are explored",
 		"the flush timeout is judged on the virtual clock (exact)",
 		"entries still being logged concurrently with the flush request are not required to be written",
-		"panic scenarios: tars.CheckPanic on the instrumented tars package, os.Exit ends the execution; debug.DumpStack is replaced by a 10 ms virtual-time stand-in (harness/debugstub); required = entries whose logging call returned before the first goroutine panicked",
+		"panic scenarios: tars.CheckPanic and debug.DumpStack on the instrumented tree; os.Exit ends the execution, os.Chdir does nothing, whether the dump file can be opened is an environment choice (it is the null device if so); required = entries whose logging call returned before the first goroutine panicked",
 	})
 }
